@@ -701,7 +701,8 @@ class PyvalColorizer:
             # In Python < 3.9, non-slices are always wrapped in an Index node.
             sub = sub.value
         self._output('[', self.GROUP_TAG, state)
-        if isinstance(sub, ast.Tuple):
+        if isinstance(sub, ast.Tuple) and sub.elts:
+            # (an empty tuple keeps its parentheses: x[()] is not x[])
             self._multiline(self._colorize_iter, sub.elts, state)
         else:
             state.result.append(self.WORD_BREAK_OPPORTUNITY)
